@@ -8,7 +8,7 @@ exit 0: all transcripts equal and every invariant line holds; exit 1: difference
 import json, os, subprocess, sys, tempfile
 
 VERIF = os.path.dirname(os.path.dirname(os.path.abspath(__file__)))
-BIN = os.path.join(VERIF, "build", "bin", "simworker-default")
+BIN = os.path.join(os.environ.get("ZKSIM_BUILD_DIR") or os.path.join(VERIF, "build"), "bin", "simworker-default")
 
 IDENTITY_PREFIXES = ("pinned_seed", "seeded_keygen", "seeded_ext_keygen", "unseeded_", "seeded_distinct")
 
